@@ -96,7 +96,7 @@ var interpretableInit = map[string]bool{"unicode": true, "unicode/utf8": true, "
 	"strings": true, "bytes": true, "bufio": true, "errors": true, "io": true, "sort": true, "slices": true, "cmp": true,
 	"math/bits": true, "math": true, "encoding/hex": true, "encoding/csv": true, "net/url": true, "path": true, "path/filepath": true,
 	"golang.org/x/net/html": true, "golang.org/x/net/html/atom": true, "html": true, "maps": true, "iter": true,
-	"encoding/binary": false,
+	"encoding/binary": false, "encoding/xml": true,
 	"golang.org/x/text/encoding/charmap": true, "golang.org/x/text/encoding": true, "golang.org/x/text/encoding/internal": true,
 	"golang.org/x/text/encoding/internal/identifier": true, "golang.org/x/text/transform": true}
 
@@ -272,6 +272,11 @@ func (e *engine) discover(only string) error {
 			h.timeoutMs = atoiDef(a["timeout"], h.timeoutMs)
 			h.workers = atoiDef(a["workers"], 0)
 			h.solver = a["solver"]
+			// second-solver diff (cross-check runs): SYMGO_SOLVER=cvc5|z3-new replaces the main back
+			// end of every harness; registered commands do not set it
+			if sv := os.Getenv("SYMGO_SOLVER"); sv != "" {
+				h.solver = sv
+			}
 			h.lemmas = a["lemmas"] != "0"
 			h.vcFresh = a["vc"] == "fresh"
 			h.hangIsViolation = a["hang"] == "1"
